@@ -486,6 +486,13 @@ def exact_family():
            "async def dupD():\n    return 1 + 2\n")
     for P in (["dupA"], ["dupB"], ["dupA", "dupC"], ["dupC"], ["dupA", "dupB", "dupC"]):
         out.append(("RDuplicate*", src, P))
+    # move_staticmethod_static_scope: every guard key form, also a dotted key of ANOTHER class (its last
+    # component protects the method name in every class: attributes_to_preserve)
+    src = ("x = 1\nclass Holder:\n    @staticmethod\n    def statFn():\n        return 1\n"
+           "    @staticmethod\n    def otherStat():\n        return 2\nprint(Holder.statFn(), Holder.otherStat())\n")
+    for P in ([], ["Holder"], ["statFn"], ["Holder.statFn"], ["Elsewhere.statFn"], ["Elsewhere.otherStat", "statFn"],
+              ["Holder.otherStat"], ["x"], ["Elsewhere.Holder"]):
+        out.append(("RMoveStatic", src, P))
     # delete_pointless_statements: `_`
     for s in UNDERSCORE_FAMILY[:4]:
         out.append(("RPointless", s, []))
